@@ -469,6 +469,7 @@ class Profile:
     default_behaviours = ('run',)
     behaviours_max = 3
     behaviour_kinds = None         # None = all kinds with the same weight
+    deviant_option = 0.0           # probability that one instance gets a strategy option different from the others
     rpc_rare = ()                  # XML-RPC methods drawn 6 times less often by rpc_fuzz
     behaviour_everywhere = 0.0     # probability that a behaviour script applies to the program on every instance
     sequences = (0, 1, 2)
@@ -588,6 +589,16 @@ def config_st(draw, profile=Profile):
     default = draw(st.sampled_from(list(profile.default_behaviours)))
     if default != 'run':
         out['default_behaviour'] = default
+    if profile.deviant_option and n > 1 and draw(_bern(profile.deviant_option)):
+        # one instance is configured with a different strategy (inconsistent handshake)
+        who = draw(st.integers(0, n - 1))
+        key = draw(st.sampled_from(['auto_fence', 'starting_strategy', 'conciliation_strategy',
+                                    'supvisors_failure_strategy']))
+        domain = {'auto_fence': [True, False], 'starting_strategy': list(STARTING),
+                  'conciliation_strategy': list(CONCILIATION),
+                  'supvisors_failure_strategy': ['CONTINUE', 'RESYNC', 'SHUTDOWN']}[key]
+        others = [v for v in domain if v != options[key]]
+        out['inst_options'] = {str(who): {key: draw(st.sampled_from(others))}}
     if profile.rpc_rare:
         out['rpc_rare'] = list(profile.rpc_rare)
     return out
